@@ -1,5 +1,107 @@
-From Ahb Require Import Model.Prelude Model.Json Gen.Gen_schemas Proofs.C19_json.
+(* C19 -- JSON round trips.
+   "Serialising a parse tree, a content evaluation result, a categorized key extract, an evaluated format constraint or
+    an AHB/requirement/format evaluation result to JSON and loading it back yields an object equal to the original,
+    including results whose requirement outcome is undetermined (null). Evaluating a round-tripped tree gives the same
+    result as evaluating the original tree."
 
-Theorem C19_compatible_EvaluatedFormatConstraint : compatible cls_EvaluatedFormatConstraint sch_EvaluatedFormatConstraintSchema = true.
+   dump / load are the generic interpreter of the schema descriptors (Model/Json.v: the marshmallow-3 subset in use, the
+   hooks of the ahbicht schemas, the attrs constructors); the descriptors sch_* / cls_* are GENERATED from the source
+   (Gen/Gen_schemas.v).  [inhabits c v]: v is an instance of class c whose attributes have the declared types and pass the
+   attrs validators, i.e. an object ahbicht itself can build.  [compatible c s] is a Boolean check on the descriptors
+   (e.g. an Optional attribute needs a field with allow_none); the C19_compatible_* theorems are the obligations that
+   break when `allow_none=True` is dropped from RequirementConstraintEvaluationResultSchema again.
+   Trees: load_tree / dump_tree model TreeSchema, _TokenOrTreeSchema and TokenSchema over generic Lark trees; [embed] injects
+   a tree into the (larger) type of things TreeSchema().load can return.
+   marshmallow, attrs and lark are modelled, not verified: tied by the correspondence of vlib/props/c19.py. *)
+From Ahb Require Import Model.Prelude Model.Grammar Model.EvalRC Model.Json Gen.Gen_schemas Proofs.C19_json.
+
+(* proved once for the interpreter, for every class/schema pair *)
+Theorem C19_generic : forall (c : cls) (s : schema) (v : value),
+  compatible c s = true -> inhabits c v -> exists j, dump s v = Ok j /\ load s j = Ok v.
+Proof. exact roundtrip_generic. Qed.
+Print Assumptions C19_generic.
+
+Theorem C19_generic_load_dump : forall (c : cls) (s : schema) (v : value),
+  compatible c s = true -> inhabits c v -> (do j <- dump s v ;; load s j) = Ok v.
+Proof. exact load_dump_generic. Qed.
+Print Assumptions C19_generic_load_dump.
+
+(* the generated descriptors of the six classes *)
+Theorem C19_compatible_EvaluatedFormatConstraint :
+  compatible cls_EvaluatedFormatConstraint sch_EvaluatedFormatConstraintSchema = true.
 Proof. exact compatible_EvaluatedFormatConstraint. Qed.
 Print Assumptions C19_compatible_EvaluatedFormatConstraint.
+
+Theorem C19_compatible_ContentEvaluationResult :
+  compatible cls_ContentEvaluationResult sch_ContentEvaluationResultSchema = true.
+Proof. exact compatible_ContentEvaluationResult. Qed.
+Print Assumptions C19_compatible_ContentEvaluationResult.
+
+Theorem C19_compatible_CategorizedKeyExtract :
+  compatible cls_CategorizedKeyExtract sch_CategorizedKeyExtractSchema = true.
+Proof. exact compatible_CategorizedKeyExtract. Qed.
+Print Assumptions C19_compatible_CategorizedKeyExtract.
+
+Theorem C19_compatible_RequirementConstraintEvaluationResult :
+  compatible cls_RequirementConstraintEvaluationResult sch_RequirementConstraintEvaluationResultSchema = true.
+Proof. exact compatible_RequirementConstraintEvaluationResult. Qed.
+Print Assumptions C19_compatible_RequirementConstraintEvaluationResult.
+
+Theorem C19_compatible_FormatConstraintEvaluationResult :
+  compatible cls_FormatConstraintEvaluationResult sch_FormatConstraintEvaluationResultSchema = true.
+Proof. exact compatible_FormatConstraintEvaluationResult. Qed.
+Print Assumptions C19_compatible_FormatConstraintEvaluationResult.
+
+Theorem C19_compatible_AhbExpressionEvaluationResult :
+  compatible cls_AhbExpressionEvaluationResult sch_AhbExpressionEvaluationResultSchema = true.
+Proof. exact compatible_AhbExpressionEvaluationResult. Qed.
+Print Assumptions C19_compatible_AhbExpressionEvaluationResult.
+
+(* hence: every instance of every class of the property round-trips through the schema ahbicht ships for it *)
+Theorem C19_all_classes : forall name c s v,
+  In (name, (c, s)) c19_table -> inhabits c v -> exists j, dump s v = Ok j /\ load s j = Ok v.
+Proof. exact roundtrip_table. Qed.
+Print Assumptions C19_all_classes.
+
+(* a result whose requirement outcome is undetermined (None, None) inside an AHB expression evaluation result *)
+Theorem C19_example_undetermined :
+  inhabits cls_AhbExpressionEvaluationResult aeer_undetermined
+  /\ (do j <- dump sch_AhbExpressionEvaluationResultSchema aeer_undetermined ;; load sch_AhbExpressionEvaluationResultSchema j)
+     = Ok aeer_undetermined.
+Proof. exact undetermined_example. Qed.
+Print Assumptions C19_example_undetermined.
+
+(* the schema without allow_none on its Boolean fields (the original source) is refuted by the undetermined result *)
+Theorem C19_refuted_when_allow_none_missing :
+  let s := drop_allow_none_of_booleans sch_RequirementConstraintEvaluationResultSchema in
+  compatible cls_RequirementConstraintEvaluationResult s = false
+  /\ missing_allow_none cls_RequirementConstraintEvaluationResult s <> []
+  /\ (do j <- dump s rcer_undetermined ;; load s j) = Exn ValidationErr.
+Proof. exact refuted_when_allow_none_missing. Qed.
+Print Assumptions C19_refuted_when_allow_none_missing.
+
+(* parse trees: every Lark tree whose tokens have non-empty values (true of everything a lexer can produce) *)
+Theorem C19_tree : forall t : ltree, tree_ok t = true -> load_tree (dump_tree t) = Ok (embed t).
+Proof. exact tree_roundtrip. Qed.
+Print Assumptions C19_tree.
+
+Theorem C19_tree_needs_nonempty_tokens :
+  let t := LTree [120]%N [LTok [65]%N []] in
+  load_tree (dump_tree t) = Ok (PTree [120]%N [PRaw [(t_token, Some (PTok [65]%N (Some []))); (t_tree, None)]])
+  /\ load_tree (dump_tree t) <> Ok (embed t).
+Proof. exact tree_roundtrip_needs_nonempty_tokens. Qed.
+Print Assumptions C19_tree_needs_nonempty_tokens.
+
+(* evaluating the round-tripped tree: for the requirement-constraint evaluation model of C04 on condition expressions *)
+Theorem C19_eval_after_roundtrip : forall (ce : cer) (e : kexpr),
+  (forall k, In k (keys_of e) -> k <> []) ->
+  exists x, load_tree (dump_tree (to_ltree e)) = Ok x /\ of_lval x = Some e
+            /\ option_map (rc_evaluation ce) (of_lval x) = Some (rc_evaluation ce e).
+Proof. exact eval_after_roundtrip. Qed.
+Print Assumptions C19_eval_after_roundtrip.
+
+(* ... and for any function of the loaded tree whatsoever *)
+Theorem C19_same_result_after_roundtrip : forall (A : Type) (ev : lval -> A) (t : ltree),
+  tree_ok t = true -> res_map ev (load_tree (dump_tree t)) = Ok (ev (embed t)).
+Proof. exact @tree_roundtrip_same_result. Qed.
+Print Assumptions C19_same_result_after_roundtrip.
